@@ -460,6 +460,9 @@ class _NP:
 
     amin = min
 
+    def ptp(self, x, axis=None):
+        return self.max(x, axis=axis) - self.min(x, axis=axis)
+
     def all(self, x, axis=None):
         x = _lift(x)
         if isinstance(x, SymArr):
